@@ -17,6 +17,9 @@ use std::panic::{catch_unwind, AssertUnwindSafe};
 #[derive(Clone, Debug, Serialize, Deserialize)]
 pub struct Block {
     pub dt: u8,
+    /// sub-second fraction of the block time in milliseconds
+    #[serde(default)]
+    pub ms: u16,
     pub swaps: Vec<SwapOp>,
     pub intervals: Vec<u16>,
 }
@@ -25,6 +28,9 @@ pub struct Block {
 pub struct Round {
     pub dt: u8,
     pub price: u64,
+    /// true: this round is submitted together with the following ones in one AppendMultiplePrice
+    #[serde(default)]
+    pub batch: bool,
     /// block time at submission = timestamp + lag
     pub lag: u8,
 }
@@ -54,10 +60,11 @@ const DTS: [u64; 11] = [15, 1, 60, 900, 901, 3600, 7, 86400, 450, 300, 0];
 fn block_strategy() -> impl Strategy<Value = Block> {
     (
         0u8..11,
+        0u16..1000,
         proptest::collection::vec(swap_strategy(), 0..=4),
         proptest::collection::vec(any::<u16>(), 1..=4),
     )
-        .prop_map(|(dt, swaps, intervals)| Block { dt, swaps, intervals })
+        .prop_map(|(dt, ms, swaps, intervals)| Block { dt, ms, swaps, intervals })
 }
 
 fn interval_from(knob: u16, now: u64, hist: &[(u64, u128)]) -> u64 {
@@ -93,7 +100,7 @@ fn vamm_case(decimals: u8, x0: u128, y0: u128, blocks: &[Block], ctx: &Ctx, out:
     let mut inside_hits = 0u64;
     let mut trace = vec![];
     for (bi, b) in blocks.iter().enumerate() {
-        sim.next_block(DTS[(b.dt as usize) % DTS.len()]);
+        sim.next_block_nanos(DTS[(b.dt as usize) % DTS.len()], (b.ms as u64) * 1_000_000);
         let mut accepted = 0;
         for op in &b.swaps {
             let st = sim.state();
@@ -185,22 +192,33 @@ fn feed_case(rounds: &[Round], now_lag: u8, intervals: &[u16], ctx: &Ctx, out: &
     }
     let mut t = env.block.time.seconds();
     let mut subs: Vec<(u64, u128)> = vec![];
-    for r in rounds {
+    let mut pending: Vec<(u64, u128)> = vec![];
+    for (i, r) in rounds.iter().enumerate() {
         t += [0u64, 0, 1, 15, 60, 900, 3600, 7][(r.dt as usize) % 8];
         let p = 1 + r.price as u128;
+        pending.push((t, p));
+        let last = i + 1 == rounds.len();
+        if r.batch && !last {
+            continue;
+        }
         // submissions are never in the future
         env.block.time = Timestamp::from_seconds(t + (r.lag as u64 % 4));
-        let res = margined_pricefeed::contract::execute(
-            deps.as_mut(),
-            env.clone(),
-            mock_info("owner", &[]),
-            feed::ExecuteMsg::AppendPrice { key: "K".into(), price: Uint128::new(p), timestamp: t },
-        );
+        let msg = if pending.len() == 1 {
+            feed::ExecuteMsg::AppendPrice { key: "K".into(), price: Uint128::new(p), timestamp: t }
+        } else {
+            out.count("feed.batches");
+            feed::ExecuteMsg::AppendMultiplePrice {
+                key: "K".into(),
+                prices: pending.iter().map(|x| Uint128::new(x.1)).collect(),
+                timestamps: pending.iter().map(|x| x.0).collect(),
+            }
+        };
+        let res = margined_pricefeed::contract::execute(deps.as_mut(), env.clone(), mock_info("owner", &[]), msg);
         if res.is_err() {
-            out.harness_error = Some("owner's AppendPrice failed".into());
+            out.harness_error = Some("owner's price submission failed".into());
             return;
         }
-        subs.push((t, p));
+        subs.append(&mut pending);
     }
     if subs.is_empty() {
         return;
@@ -318,7 +336,7 @@ impl Property for C18 {
         let nb = tier.pick(12, 30);
         let vamm = (reserve_strategy(), proptest::collection::vec(block_strategy(), 1..=nb)).prop_map(|((decimals, x0, y0), blocks)| Case::Vamm { decimals, x0, y0, blocks });
         let feedc = (
-            proptest::collection::vec((0u8..8, any::<u64>(), 0u8..4).prop_map(|(dt, price, lag)| Round { dt, price: price % 1_000_000_000_000, lag }), 1..=10),
+            proptest::collection::vec((0u8..8, any::<u64>(), 0u8..4, 0u8..3).prop_map(|(dt, price, lag, b)| Round { dt, price: price % 1_000_000_000_000, batch: b == 0, lag }), 1..=10),
             0u8..8,
             proptest::collection::vec(any::<u16>(), 1..=6),
         )
@@ -329,7 +347,7 @@ impl Property for C18 {
         tier.pick(200_000, 6_000_000)
     }
     fn rule(&self) -> String {
-        "vAMM flavour (3/5 of the cases): generated reserves and block schedules (gaps 1 s .. 1 day) with 0-4 swaps per block through the real entry points; the harness records (block time, block-final spot) for every block with an accepted swap plus the creation entry; after each block TwapPrice{i} is queried for intervals shorter / equal / longer than the history, aligned with and just inside snapshot lifetimes: the answer must lie between the lowest and highest recorded price in effect in [now-i, now] (whole history if shorter), equal spot when the price did not change in the window, and agree (+-1) with the reference time-weighted mean over the block-final prices. Feed flavour: generated round sequences on the real price feed (non-decreasing timestamps incl. repeats, not in the future); GetTwapPrice within the bounds of the submissions overlapping the window, GetPrice = last submission, every successful GetPreviousPrice{n}, n = 0..rounds+1, returns exactly the (rounds-n)-th submission. Queries that error or panic give no value and are counted, not judged. Non-trivial: vAMM: a window starting strictly inside a snapshot's lifetime with >= 3 distinct prices in the history and a block with >= 2 swaps; feed: >= 3 submissions and a window overlapping different prices. Distinct by digest of the case.".into()
+        "vAMM flavour (3/5 of the cases): generated reserves and block schedules (gaps 0 s .. 1 day, block times with a sub-second fraction) with 0-4 swaps per block through the real entry points; the harness records (block time, block-final spot) for every block with an accepted swap plus the creation entry; after each block TwapPrice{i} is queried for intervals shorter / equal / longer than the history, aligned with and just inside snapshot lifetimes: the answer must lie between the lowest and highest recorded price in effect in [now-i, now] (whole history if shorter), equal spot when the price did not change in the window, and agree (+-1) with the reference time-weighted mean over the block-final prices. Feed flavour: generated round sequences on the real price feed, submitted singly and in AppendMultiplePrice batches (non-decreasing timestamps incl. repeats, not in the future); GetTwapPrice within the bounds of the submissions overlapping the window, GetPrice = last submission, every successful GetPreviousPrice{n}, n = 0..rounds+1, returns exactly the (rounds-n)-th submission. Queries that error or panic give no value and are counted, not judged. Non-trivial: vAMM: a window starting strictly inside a snapshot's lifetime with >= 3 distinct prices in the history and a block with >= 2 swaps; feed: >= 3 submissions and a window overlapping different prices. Distinct by digest of the case.".into()
     }
     fn assumptions(&self) -> Vec<String> {
         vec!["mock dependencies stand in for the chain; block times strictly increase".into()]
